@@ -137,11 +137,12 @@ def flattenHead (prog : List Nat) (present : Bool) : List IdlSet → List Slot
   | f :: _ => flatten prog present f
 end
 
-/-- `SingleAccountSet::meta()` of a single-account shape: each modifier REPLACES its flag
-(`SingleSetMeta { signer: SIGNER, ..T::meta() }`). -/
+/-- `SingleAccountSet::meta()` of a single-account shape: a modifier RAISES its flag, a pass-through
+(`MaybeSigner<false, _>`, `MaybeMut<false, _>`) keeps the inner one
+(`SingleSetMeta { signer: SIGNER || T::meta().signer, ..T::meta() }`, /repo 10a861d). -/
 def metaOf : SetShape → Bool × Bool
-  | .signer b s => (b, (metaOf s).2)
-  | .mutable b s => ((metaOf s).1, b)
+  | .signer b s => (b || (metaOf s).1, (metaOf s).2)
+  | .mutable b s => ((metaOf s).1, b || (metaOf s).2)
   | .init s => ((metaOf s).1, true)
   | .seeded s => metaOf s
   | .boxed s => metaOf s
@@ -174,8 +175,8 @@ mutual
 /-- The metas `extend_account_metas` pushes, for the harness' canonical client input. -/
 def clientSlots (prog : List Nat) (present : Bool) : SetShape → List Slot
   | .info => [⟨false, false, .fresh⟩]
-  | .signer b s => [⟨b, (metaOf s).2, .fresh⟩]
-  | .mutable b s => [⟨(metaOf s).1, b, .fresh⟩]
+  | .signer b s => [⟨b || (metaOf s).1, (metaOf s).2, .fresh⟩]
+  | .mutable b s => [⟨(metaOf s).1, b || (metaOf s).2, .fresh⟩]
   | .init s => [⟨(metaOf s).1, true, .fresh⟩]
   | .seeded s => [⟨(metaOf s).1, (metaOf s).2, .fresh⟩]
   | .fixed a => [⟨false, false, keyOf prog (some a)⟩]
@@ -190,15 +191,13 @@ def clientSlotsAll (prog : List Nat) (present : Bool) : List SetShape → List S
 end
 
 mutual
-/-- Shapes the Rust types admit and on which client and validation agree:
-modifiers wrap single-account sets; a `false` modifier does not sit on top of a `true` one of the
-same kind (`MaybeSigner<false, Signer<T>>`: validation still demands the signature, the IDL says
-`signer`, but `meta()` — hence the client meta — says not; see `downgrade_witness`); a fixed-address
-account is not wrapped (the wrapper's client takes an explicit key, there is no default to compare). -/
+/-- Shapes the Rust types admit: modifiers wrap single-account sets; a fixed-address account
+(`Program`/`Sysvar`) is not wrapped by a modifier (the wrapper's client takes an explicit key, there
+is no default to compare). Pass-through modifiers over checking ones are INSIDE `WF`. -/
 def WF : SetShape → Bool
   | .info => true
-  | .signer b s => isSingle s && WF s && (b || !(metaOf s).1) && (fixedAddr s).isNone
-  | .mutable b s => isSingle s && WF s && (b || !(metaOf s).2) && (fixedAddr s).isNone
+  | .signer _ s => isSingle s && WF s && (fixedAddr s).isNone
+  | .mutable _ s => isSingle s && WF s && (fixedAddr s).isNone
   | .init s => isSingle s && WF s && (fixedAddr s).isNone
   | .seeded s => isSingle s && WF s && (fixedAddr s).isNone
   | .fixed _ => true
@@ -211,6 +210,55 @@ def WFAll : List SetShape → Bool
   | [] => true
   | f :: fs => WF f && WFAll fs
 end
+
+/-! ## Multi-variant account sets (`#[idl(id = "…", arg = …, address = …)]`) -/
+
+/-- One `#[idl(..)]` attribute on a field: the variant it belongs to (`none` = the un-named default
+variant), whether it passes a `Seeds(..)` arg, and the address it pins. -/
+structure FieldAttr where
+  id : Option String
+  seeds : Bool
+  address : Option (List Nat)
+  deriving Repr, Inhabited
+
+structure VField where
+  path : Option String
+  attrs : List FieldAttr
+  /-- the field's account set (for a `Seeded<T>` field: `T`; the `Seeds` arg of the chosen variant decides
+  whether the IDL gets seeds) -/
+  inner : SetShape
+  deriving Repr, Inhabited
+
+/-- STRICT per-id lookup (`struct_impl/idl.rs`: `f.iter().find(|f| f.id == id)`): only an attribute
+carrying exactly the requested id counts; an un-named attribute never serves a named variant. -/
+def lookupAttr (id : Option String) : List FieldAttr → Option FieldAttr
+  | [] => none
+  | a :: as => if a.id = id then some a else lookupAttr id as
+
+/-- `IdlAccountSetDef::with_single_address`. -/
+def withAddress (a : Option (List Nat)) (s : IdlSet) : IdlSet :=
+  match a with
+  | none => s
+  | some ad => mapSingle (fun x => { x with address := some ad }) s
+
+def fieldToIdl (id : Option String) (f : VField) : IdlSet :=
+  match lookupAttr id f.attrs with
+  | none => setToIdl f.inner
+  | some a => withAddress a.address (setToIdl (if a.seeds then .seeded f.inner else f.inner))
+
+/-- The IDL of variant `id` of a derived struct with these fields. -/
+def variantToIdl (id : Option String) (fs : List VField) : IdlSet :=
+  .struct (fs.map (·.path)) (fs.map (fieldToIdl id))
+
+/-- The client metas do not depend on the variant. -/
+def variantClient (prog : List Nat) (present : Bool) (fs : List VField) : List Slot :=
+  clientSlotsAll prog present (fs.map (·.inner))
+
+/-- fields of a multi-variant set as the harness uses them: a single account (not `Program`/`Sysvar`),
+addresses other than the program's own id -/
+def VFieldOk (prog : List Nat) (f : VField) : Bool :=
+  isSingle f.inner && WF f.inner && (fixedAddr f.inner).isNone &&
+    f.attrs.all (fun a => match a.address with | none => true | some ad => decide (ad ≠ prog))
 
 /-! ## Comparing an IDL-derived list with actual client metas -/
 
